@@ -159,12 +159,18 @@ template <class T> static bool exec_buf_t(Ctx &c, const Op &op) {
         if ((op.fault & F_ALLOC) && dst->model.size() >= (size_t)ET<T>::limit) probe(c, PR_FAULT_ALLOCATE_AFTER_RELEASE);
         as_target(dst);
         T ch = (op.c % 11 == 10) ? T(0) : (T)(0x20 + op.c % 0x5F);      // NUL is an element like any other (a buffer of n zeros has size n)
+        // the fill value may be handed over as a reference to an element of the very buffer being re-allocated: b.allocate(n, b.front()) / b.back() / b[i]
+        const unsigned self_fill = (op.kind == B_ALLOCATE_FILL && op.c % 7 == 3) ? 1 + (op.c / 7) % 3 : 0;
+        if (self_fill) ch = dst->model.empty() ? T(0) : self_fill == 1 ? dst->model.front() : self_fill == 2 ? dst->model.back() : dst->model[(op.c / 21) % dst->model.size()];
         Str pattern = op.kind == B_ALLOCATE ? take_units<T>(c, op.c, (uint32_t)n) : Str(n, ch);
         ExcKind ex = run_sut(c, op, [&] {
             if (op.kind == B_ALLOCATE) {
                 dst->p()->allocate(n);
                 // the caller fills the buffer through data(), as a user of allocate() does
                 if (n) std::char_traits<T>::copy(dst->p()->data(), pattern.data(), n);
+            } else if (self_fill && !dst->model.empty()) {
+                Buf &b = *dst->p();
+                if (self_fill == 1) b.allocate(n, b.front()); else if (self_fill == 2) b.allocate(n, b.back()); else b.allocate(n, b[(op.c / 21) % dst->model.size()]);
             } else dst->p()->allocate(n, ch);
         });
         if (settle(c, op, ex, 0)) { crossing<T>(c, dst->model.size(), n); dst->model = pattern; dst->moved_from = false; }
